@@ -14,6 +14,8 @@ def scenario(args):
     w = SW.ServerWorld(seed=seed, interval=kw["interval"], conn_timeout=kw["conn_timeout"], keepalive=kw["srv_ka"], temp_timeout=kw.get("temp_timeout"), msg_timeout=kw.get("srv_mt"), late_config=kw.get("late_config", False))
     w.client_substeps = kw.get("client_substeps", 1)
     w.broadcast = kw.get("broadcast", False)
+    w.client_every = kw.get("client_every", 1)
+    w.one_update = kw.get("one_update", False)
     try:
         tps = int(round(1 / kw["interval"]))           # ticks per second
         order = kw.get("setters", ())                   # sequence of ("ka"|"mt"|"ct", value, "before"|"after")
@@ -71,9 +73,8 @@ def scenario(args):
         elif kw.get("cut_after") is not None:
             for t in range(kw["cut_after"]):
                 w.tick()
-            w.clients[1]["cut"] = True
-            w.clients[1]["deaf"] = True
-            for t in range(int((max(kw["conn_timeout"], 5.0) + 1.5) * tps)):
+            w.cut_client(1)
+            for t in range(int((max(kw["conn_timeout"], 5.0) + 1.5 + kw.get("linger", 0)) * tps)):
                 w.tick()
         w.shutdown()
         return w.ev
@@ -115,6 +116,12 @@ def run(ctx):
             for cut in (0, 3, 7):
                 jobs.append((ctx.seed, dict(cf, idle=1.0, cut_after=cut)))
                 names.append("cut@%d under a per-tick broadcast %s" % (cut, cf))
+    # a game that runs at a lower frame rate than the server sends (one update() per frame, as documented): datagrams that piled up before the peer fell
+    # silent are not news - DROPPED is due 5 s after the peer's last datagram left, whenever the application reads it
+    for cf in (dict(interval=1 / 60, srv_ka=0.1, conn_timeout=30.0, client_every=12, one_update=True), dict(interval=1 / 60, srv_ka=0.02, conn_timeout=30.0, client_every=3, one_update=True),
+               dict(interval=1 / 60, srv_ka=0.1, conn_timeout=30.0, client_every=4, one_update=True, broadcast=True)):
+        jobs.append((ctx.seed, dict(cf, idle=20.0, cut_after=5, linger=8)))
+        names.append("slow application frame rate, then the peer falls silent %s" % cf)
     # idle links stay up; cut at every tick of one keep-alive period
     for cf in confs:
         tps = int(round(1 / cf["interval"]))
